@@ -636,6 +636,8 @@ def _error_body(rc: RuleCtx, name: str, fi, loop, post, table):
             penv = {a_name: A, b_name: B, lst: T_}
             fr.block(post, penv, TRUE)
             val = mk_pw(fr.returns)
+            from .common import account_returns
+            account_returns(fi)            # (the value returned after the loop is compared with the reference just below)
             want = anf.f_sum(T_, sym("La")) / (C(2) * sym("La"))
             if isinstance(val, Rat) and val.equals(want):
                 res.ok("S6", f"evaluation.{name}:divisor", "sum(terms) / (2 * len(a))")
@@ -657,6 +659,8 @@ def _error_body(rc: RuleCtx, name: str, fi, loop, post, table):
         penv = {a_name: A, b_name: B, acc: ev.symbol("error")}
         fr.block(post, penv, TRUE)
         val = mk_pw(fr.returns)
+        from .common import account_returns
+        account_returns(fi)            # (the value returned after the loop is compared with the reference just below)
         want = sym("error") / (C(2) * sym("La"))
         if isinstance(val, Rat) and val.equals(want):
             res.ok("S6", f"evaluation.{name}:divisor", "error / (2 * len(a))")
@@ -684,6 +688,8 @@ def _error_body(rc: RuleCtx, name: str, fi, loop, post, table):
         penv = {lst: E_}
         fr.block(post, penv, TRUE)
         val = mk_pw(fr.returns)
+        from .common import account_returns
+        account_returns(fi)            # (the value returned after the loop is compared with the reference just below)
         want = anf.f_sqrt(anf.f_sum(E_ * E_, sym("Le")) / sym("Le"))
         if isinstance(val, Rat) and val.equals(want):
             res.ok("S6", "evaluation.rmspe:final", "sqrt(mean(errors^2))")
